@@ -27,6 +27,7 @@ def run(ctx, rep):
     runloop.r12x(ctx, rep)
     runloop.r12y(ctx, rep)
     runloop.r12z(ctx, rep)
+    runloop.r12o(ctx, rep)
     runloop.r12r(ctx, rep)
     runloop.r12s(ctx, rep)
     runloop.r13g(ctx, rep, rule="R12t")
